@@ -34,7 +34,7 @@ func main() {
 	wall := flag.Duration("wall", 0, "wall-clock budget")
 	qtimeout := flag.Int("query-timeout-ms", 10000, "per-query solver timeout")
 	shard := flag.String("shard", "", "i/n: explore only the i-th of n shards")
-	shardDepth := flag.Int("shard-depth", 8, "number of leading decisions hashed for sharding")
+	shardDepth := flag.Int("shard-depth", 9, "number of leading decisions hashed for sharding")
 	second := flag.Bool("second-opinion", false, "cross-check assertion queries on a second solver")
 	revMaps := flag.Bool("reverse-maps", false, "iterate maps in reverse insertion order")
 	nval := flag.Int("validate", 0, "number of passing paths to export for native validation")
@@ -42,6 +42,7 @@ func main() {
 	fix := flag.String("fix", "", "name=value,... : fix named inputs")
 	trace := flag.Bool("trace", false, "trace instructions")
 	qlog := flag.String("query-log", "", "log solver queries to file")
+	params := flag.String("param", "", "name=value,... : concrete harness parameters (bounds)")
 	skipKnown := flag.String("skip-known", "", "comma-separated known-finding ids whose input regions are skipped")
 	maxViol := flag.Int("max-violations", 1, "stop after this many violations")
 	flag.Parse()
@@ -126,6 +127,14 @@ func main() {
 		p := strings.Split(*shard, "/")
 		x.ShardI, _ = strconv.Atoi(p[0])
 		x.ShardN, _ = strconv.Atoi(p[1])
+	}
+	x.Params = map[string]int{}
+	if *params != "" {
+		for _, kv := range strings.Split(*params, ",") {
+			p := strings.SplitN(kv, "=", 2)
+			v, _ := strconv.Atoi(p[1])
+			x.Params[p[0]] = v
+		}
 	}
 	x.SkipKnown = map[string]bool{}
 	for _, k := range strings.Split(*skipKnown, ",") {
